@@ -471,3 +471,50 @@ def m_ordering_eq(ex, m, args, tys, st, fn):
     a, b = ex.deref(args[0]), ex.deref(args[1])
     e = tm.eq(a.tag, b.tag)
     return [(st, e if m.group(1) == "eq" else tm.not_(e))]
+
+
+# ---- Vec<T> with a concrete length, represented as Agg([...]) in a cell (used through &Vec / &mut Vec)
+@model(r"^Vec::<.*>::len$")
+def m_vec_len(ex, m, args, tys, st, fn):
+    v = ex.deref(args[0])
+    if not isinstance(v, Agg):
+        raise Unsupported("Vec::len of " + repr(v))
+    return [(st, I(len(v.fields)))]
+
+
+@model(r"^Vec::<.*>::push$")
+def m_vec_push(ex, m, args, tys, st, fn):
+    v = ex.deref(args[0])
+    if not isinstance(v, Agg):
+        raise Unsupported("Vec::push on " + repr(v))
+    ex.write_ref(args[0], Agg(list(v.fields) + [args[1]]))
+    return [(st, Agg([]))]
+
+
+@model(r"^Vec::<.*>::pop$")
+def m_vec_pop(ex, m, args, tys, st, fn):
+    v = ex.deref(args[0])
+    if not isinstance(v, Agg):
+        raise Unsupported("Vec::pop on " + repr(v))
+    if not v.fields:
+        return [(st, Enum(0, {}, "Option"))]
+    ex.write_ref(args[0], Agg(list(v.fields[:-1])))
+    return [(st, Enum(1, {1: [v.fields[-1]]}, "Option"))]
+
+
+@model(r"^<Vec<.*> as (?:std::ops::)?Index<(?:std::ops::)?RangeFrom<usize>>>::index$")
+def m_vec_index_from(ex, m, args, tys, st, fn):
+    from .execmir import Cell
+    v = ex.deref(args[0])
+    start = args[1].fields[0]
+    if not isinstance(v, Agg) or not start.is_const:
+        raise Unsupported("Vec[start..] with symbolic start or unmodelled vector")
+    if start.val > len(v.fields):
+        ex.obligations.append({"kind": "panic", "msg": "range start index out of range for slice", "pc": list(st.pc), "fn": fn.path})
+        return []
+    return [(st, Ref(Cell(Agg(list(v.fields[start.val:])))))]
+
+
+@model(r"^<Vec<.*> as (?:std::ops::)?Deref(?:Mut)?>::deref(?:_mut)?$")
+def m_vec_deref(ex, m, args, tys, st, fn):
+    return [(st, args[0])]  # &Vec<T> -> &[T]: same elements
